@@ -5,7 +5,7 @@ import re
 from ..absint import Explorer, UNKNOWN
 from ..astutil import norm, const, NO, compare, tail, names
 from ..index import AnalysisError, walk_own
-from .common import (site, key, calls_to, method_calls, nodes_with, guard_check, sample_polarity, cfg_attr)
+from .common import (site, key, calls_to, method_calls, nodes_with, guard_check, sample_polarity, cfg_attr, rname)
 
 WSGI = "gunicorn.http.wsgi"
 RESP = WSGI + ".Response"
@@ -429,7 +429,7 @@ def r4(ctx):
     def recog(e):
         if isinstance(e, ast.Call) and isinstance(e.func, ast.Attribute) and e.func.attr == "should_close":
             return +1
-        if isinstance(e, ast.Attribute) and e.attr == "mesg":
+        if rname(f, e) == "self.mesg":
             return +1          # false edge: there is no previous message
         return None
     p, hits = guard_check(f, [n for c in ctor for n in nodes_with(f, c)], recog)
